@@ -322,7 +322,12 @@ def gen_case(rng, small: bool = False) -> Dict[str, Any]:
                 "f_for_hidden": rng.random() < 0.7,
                 "first_pad": rng.choice([0, 0, 1, 3]),
                 # circular chain (the oldest section's /Prev points at itself): read_xref_from must stop
-                "self_prev": k == 0 and rng.random() < 0.08}
+                "self_prev": k == 0 and rng.random() < 0.08,
+                # damaged-but-harmless: /Index promises more rows than the stream holds (the extra numbers decode as
+                # "in use at offset 0", which never parses, and get_objids must not report them)
+                "index_overshoot": rng.choice([1, 2, 5]) if (form != "table" and rng.random() < 0.03) else 0,
+                # DAMAGED, correspondence only: an object stream listed as stored in itself (getobj must not recurse forever)
+                "self_stm": form == "stream" and bool(groups) and rng.random() < 0.04}
         if plan["full_index"]:
             # every number not defined anywhere yet is written free: allowed in revision 0 only
             pass
@@ -343,7 +348,8 @@ def build(case: Dict[str, Any]) -> Tuple[bytes, Dict[str, Any], List[CW.Rev]]:
                      full_index=p["full_index"], omit_index=p["omit_index"], xfilter=p["xfilter"],
                      ofilter=p["ofilter"], containers_in_table=p["containers_in_table"],
                      order_seed=p["order_seed"], trailer_same_line=p["trailer_same_line"],
-                     f_for_hidden=p["f_for_hidden"], first_pad=p["first_pad"], self_prev=p.get("self_prev", False))
+                     f_for_hidden=p["f_for_hidden"], first_pad=p["first_pad"], self_prev=p.get("self_prev", False),
+                     index_overshoot=p.get("index_overshoot", 0), self_stm=p.get("self_stm", False))
         pl.fill_gaps = list(p["fill_gaps"])
         plans.append(pl)
     maxn = max(max(r.defs) for r in revs)
@@ -616,7 +622,7 @@ def shrink_case(case: Dict[str, Any], config: Tuple[int, bool], queries: List[in
         for k in range(len(cur["plans"])):
             for key, val in (("groups", []), ("w", None), ("fill_gaps", []), ("xfilter", "none"), ("ofilter", False),
                              ("order_seed", 0), ("first_pad", 0), ("full_index", False), ("head", False),
-                             ("trailer_same_line", False), ("self_prev", False), ("form", "table")):
+                             ("trailer_same_line", False), ("self_prev", False), ("index_overshoot", 0), ("form", "table")):
                 if budget <= 0 or cur["plans"][k].get(key, val) == val:
                     continue
                 c = json.loads(json.dumps(cur))
@@ -821,7 +827,9 @@ def _tie_compare(ctx, inp, data, layout, queries, exp, bufs, r, qs, bound, tpart
         cmp("q.sections", " ".join(("T:" if k == "PDFXRef" else "S:") + csv(ids) for (k, ids, _d) in impl0["sections"]),
             r["q.sections"])
         cmp("q.rootinfo", "root " + to_lean_res(impl0["catalog"], containers) + " info " +
-            (",".join(to_lean_res(c, containers) for c in impl0["info"]) or "-"), r["q.rootinfo"])
+            (",".join(to_lean_res(c, containers) for c in impl0["info"]) or "-"),
+            # dict_value() of a Root/Info reference that resolves to nothing is the empty dictionary (non-strict mode)
+            r["q.rootinfo"].replace("E:notfound", "p" + lean_id("<<>>")))
         cmp("q.queries-nocache", [to_lean_res(c, containers) for c in impl0["getobj"]],
             [norm_lean(t) for t in r[f"q.queries 0 {qs}"].split(" ")])
         cmp("q.queries-cache", [to_lean_res(c, containers) for c in impl1.get("getobj", [impl1.get("open")])],
@@ -841,8 +849,9 @@ def _tie_compare(ctx, inp, data, layout, queries, exp, bufs, r, qs, bound, tpart
         (to_lean_res(exp["info"][0], containers) if exp["info"] else "-"), r["q.specrootinfo"])
     cmp("q.specinuse", " ".join(csv(ids) for (_k, ids, _d) in exp["sections"]), r["q.specinuse"])
     # the theorems' hypothesis holds for this file
-    ctx.branch("hyp:repOK:" + r[f"q.repok {bound}"])
-    if r[f"q.repok {bound}"] != "true":
+    overshoot = any(p.get("index_overshoot") or p.get("self_stm") for p in inp["case"]["plans"])
+    ctx.branch("hyp:repOK:" + r[f"q.repok {bound}"] + (":index-overshoot" if overshoot else ""))
+    if r[f"q.repok {bound}"] != "true" and not overshoot:
         ctx.disagree("q.repok", inp, "true", r[f"q.repok {bound}"])
     for b in bufs:
         cmp(f"q.findxref {b}", find_xref_impl(data, b), r[f"q.findxref {b}"])
@@ -1168,7 +1177,10 @@ def run_history_cases(ctx: C.Ctx) -> None:
                     ctx.branch("table:subsections:%d" % min(4, len(CW.runs([e[0] for e in part["entries"]]))))
         for (b, _c) in configs:
             ctx.branch("bufsiz:%d" % b)
-        r = check_case(ctx, case, configs, queries)
+        wild = any(p.get("self_stm") for p in case["plans"])      # outside the property's domain: tie only
+        if wild:
+            ctx.branch("wild:self-contained-objstm")
+        r = None if wild else check_case(ctx, case, configs, queries)
         if r is not None:
             report_failure(ctx, case, r, queries)
         if True:
